@@ -132,7 +132,7 @@ def block_kws(case, b):
         kws = [re.sub(r"(?<= )0(?= )", "0.5", k) if k.startswith(("WCONPROD", "WCONINJE")) else k for k in kws]
     if case.get("quirk") == "bare_wells":
         return kws
-    txt = "".join(kws)
+    txt = "".join(k for k in kws if not k.startswith("ACTIONX"))       # an ACTIONX body is not executed by the deck
     for mt in WELSPECS_RE.finditer(txt):
         w, ph = mt.group(1), mt.group(2)
         if re.search(r"^WCON(PROD|INJE|HIST|INJH)\n '%s' " % w, txt, re.M):
@@ -484,7 +484,9 @@ class C05(Check):
         req = dict(text=base, rst_text=rst, dir=d, base="BASE", step=n, evals=evals, udq_eval=True, action_runs=runs,
                    solution=[dict(s, data=[hx(v) for v in s["data"]]) if "data" in s else s for s in sols],
                    extra=[dict(e, data=[hx(v) for v in e["data"]]) for e in extras],
-                   write_double=case["double"], via=case["via"])
+                   write_double=case["double"],
+                   # EclipseIO::writeTimeStep only writes a restart file at steps the deck's RPTRST asks for
+                   via=case["via"] if S["write_rst"][n] else "save")
         return req, S, final_wells, sols, extras, runs, n
 
     def check(self, case, ctx):
@@ -546,8 +548,14 @@ class C05(Check):
             key = "A:int-solution-array"
         if re.search(r"Cannot convert integer value -10 to (producer|injector) control mode", what):
             key = "B:well.controlMode-undefined-throws"
+        if re.search(r"Problem with keyword WLIST.*Invalid well list", what, re.S):
+            key = "B:wlists"        # a list lost by the restart (well in two lists) is used by a later WLIST ADD/DEL/MOV
         secs = [hexf(x) for x in S["seconds"]]
         if re.search(r"In a restarted simulation using SKIPREST, the (TSTEP|DATES) keyword must have", what) and secs[n] % 86400 != 0:
+            key = "B:restart-time-of-day-dropped"
+        if key is None and secs[n] % 86400 != 0:
+            # the restart time was truncated to midnight: the report steps of the restarted deck are shifted, later
+            # keywords then meet a schedule state they were not written for
             key = "B:restart-time-of-day-dropped"
         return {"rule": "%s: the restarted run cannot be set up from the restart file the library wrote (%s phase)" % (case["half"], err["phase"]),
                 "detail": {"error": what[:600], "restart_step": restart_step(case), "flavour": case["flavour"], "unit": case["unit"],
@@ -764,7 +772,10 @@ class C05(Check):
 
     def oracle_B(self, case, r, steps, n, ctx):
         if r["rst_nsteps"] != r["base_nsteps"]:
-            yield {"rule": "B: number of report steps of the restarted schedule", "detail": [r["base_nsteps"], r["rst_nsteps"]], "key": "B:nsteps"}
+            off = hexf(r["seconds_base"][n]) % 86400
+            yield {"rule": "B: number of report steps of the restarted schedule",
+                   "detail": {"original": r["base_nsteps"], "restarted": r["rst_nsteps"], "restart_time_seconds_after_midnight": off},
+                   "key": "B:restart-time-of-day-dropped" if off != 0 else "B:nsteps"}
             return
         sb, sr = r["seconds_base"], r["seconds_rst"]
         for j in range(n, len(sb)):
@@ -788,7 +799,7 @@ class C05(Check):
                 yield {"rule": "B: attribute %s of the restarted schedule differs from the original run at report step %d (restart at %d)" % (attr, j, n),
                        "detail": {"where": path, "original": x, "restarted": y, "unit": case["unit"], "formatted": case["fmt"],
                                   "flavour": case["flavour"]},
-                       "key": key_B(attr, x, y, case)}
+                       "key": key_B(attr, x, y, case, a, path, b)}
 
 
 # ----------------------------------------------------------------------------------------------------------------
@@ -855,11 +866,51 @@ def diff_states(a, b, case, path=""):
         yield path, a, b
 
 
-def key_B(attr, x, y, case):
+UDA_OF_LIMIT = {"oil_rate": "OilRate", "water_rate": "WaterRate", "gas_rate": "GasRate", "liquid_rate": "LiquidRate",
+                "resv_rate": "ResVRate", "surface_rate": "surfaceInjectionRate", "reservoir_rate": "reservoirInjectionRate"}
+
+
+def misassigned_uda_wells(a, b):
+    """wells whose UDQ-valued limit moved to another well in the restarted state"""
+    out = set()
+    for side in ("prod_udq", "inj_udq"):
+        lost = [(w, k, v) for w, W in a["wells"].items() for k, v in W.get(side, {}).items() if b["wells"].get(w, {}).get(side, {}).get(k) != v]
+        for w2, W2 in b["wells"].items():
+            for k, v in W2.get(side, {}).items():
+                if a["wells"].get(w2, {}).get(side, {}).get(k) != v and any(k == k1 and v == v1 and w1 != w2 for w1, k1, v1 in lost):
+                    out.add(w2)
+                    out.update(w1 for w1, k1, v1 in lost if k1 == k and v1 == v)
+    return out
+
+
+def key_B(attr, x, y, case, state=None, path="", other=None):
+    if attr.startswith("well") and state is not None and other is not None:
+        parts = path.strip("/").split("/")
+        if len(parts) > 1 and parts[1] in misassigned_uda_wells(state, other):
+            return "B:uda-applied-to-wrong-well"
     """stable finding key: the attribute, except where one root cause shows under several attributes"""
     lim = re.match(r"well\.(prod|inj)Controls\.(oil_rate|water_rate|gas_rate|liquid_rate|resv_rate|surface_rate|reservoir_rate)$", attr)
+    if isinstance(x, str) and HEXRE.match(x):
+        x = hexf(x)
+    if isinstance(y, str) and HEXRE.match(y):
+        y = hexf(y)
     if lim and y == "<inactive>" and isinstance(x, float) and x == 0.0:
         return "B:well.zero-rate-limit-dropped"
+    mh = re.match(r"well\.(prod|inj)Controls\.has$", attr)
+    if mh and state is not None and x is True and y is False:
+        parts = path.strip("/").split("/")
+        c = state["wells"].get(parts[1], {}).get(mh.group(1) + "Controls", {})
+        names = {v: k for k, v in (PROD_LIMITS if mh.group(1) == "prod" else INJ_LIMITS).items()}
+        k = names.get(int(parts[-1]))
+        if k and isinstance(c.get(k), str) and HEXRE.match(c[k]) and hexf(c[k]) == 0.0:
+            return "B:well.zero-rate-limit-dropped"
+    if lim and state is not None:
+        # the limit holds a UDQ name (on the original side) and yet the two sides evaluate differently: one side uses the
+        # number a later WELTARG put into the same UDA
+        wname = path.strip("/").split("/")[1]
+        udq = state["wells"].get(wname, {}).get(lim.group(1) + "_udq", {})
+        if UDA_OF_LIMIT[lim.group(2)] in udq:
+            return "B:uda-limit-then-weltarg"
     if lim and isinstance(x, float) and isinstance(y, float) and x != 0 and y != 0 and case["unit"] != "METRIC":
         # original run converted the WELTARG value with METRIC factors (target defaulted in WCONPROD): ratio of the unit factors
         for meas in ("liquid_surface_rate", "gas_surface_rate", "rate"):
@@ -875,6 +926,8 @@ def key_B(attr, x, y, case):
         return "B:group.prod.cmode"
     if attr in ("group.inj.cmode", "group.injControls.cmode"):
         return "B:group.inj.cmode"
+    if re.match(r"well\.(prod|inj)_udq\.", attr) and x == "<absent>":
+        return "B:well.uda-stale-after-redefinition"
     if attr.startswith("wlists"):
         return "B:wlists"
     if attr == "well.seg.inlets.len":
@@ -906,7 +959,6 @@ def norm_state(s):
     for it in s["udq"]["items"].values():
         if it["kind"] == "ASSIGN":
             # the report step an ASSIGN was made at is bookkeeping: after a restart it is the restart step
-            it["report_step"] = "<bookkeeping>"
             # the records (selector, value) come back as one record per well/group that holds a value: equivalent
             # in effect; the values themselves are compared in half A (UDQState)
             it["assign"] = "<records>"
@@ -965,8 +1017,10 @@ def norm_state(s):
                 w[ck] = "<no control keyword yet>"
         for ck, gi in (("prodControls", 8), ("injControls", 4)):
             c = w.get(ck)
-            if isinstance(c, dict) and "has" in c and not w["availableForGroupControl"]:
-                c["has"][gi] = False        # the GRUP constraint only exists for wells under group control
+            if isinstance(c, dict) and "has" in c:
+                # whether a well answers to group control is compared through availableForGroupControl; the GRUP bit
+                # of the constraint set is a stale copy of it (WGRUPCON / NODEPROP change one without the other)
+                c["has"][gi] = "<see availableForGroupControl>"
         c = w.get("prodControls")
         if isinstance(c, dict) and "has" in c:
             for k, i in PROD_LIMITS.items():
